@@ -54,7 +54,7 @@ type c20Call struct {
 }
 
 func c20Worker(env *fw.Env) {
-	total := int64(env.Pick(40, 1200))
+	total := int64(env.Pick(120, 1200))
 	for i := int64(0); i < total; i++ {
 		if !env.Mine(i) || !env.Want(i) {
 			continue
